@@ -29,7 +29,7 @@ RULE = ("explicit-state search over the library's global state: a state is the c
         "order), every object created earlier in the history unchanged. Complemented by a merge-free "
         "enumeration of operation sequences that needs no fingerprint (thorough: ALL sequences of "
         "length <= 2 and all of length 3 over the core alphabet; quick: all pairs with at least one "
-        "core operation and all triples over 6 core operations). distinct = distinct (history, operation) transitions.")
+        "of the first 14 core operations, all pairs of core operations, and all triples over 6 core operations). distinct = distinct (history, operation) transitions.")
 
 VALID = "DE89370400440532013000"
 
@@ -252,8 +252,9 @@ def build_alphabet(ga: dict, tier: str = "thorough"):
     for cc_m, code_m in multi:
         tm = c12_build(cc_m, code_m)
         add(f"multi-{cc_m}-from_bank_code", (lambda a=cc_m, b=code_m: B.from_bank_code(a, b)))
-        add(f"multi-{cc_m}-candidates", (lambda a=cc_m, b=code_m: B.candidates_from_bank_code(a, b)), True)
-        add(f"multi-{cc_m}-subclass-from_bank_code", (lambda a=cc_m, b=code_m: ReportBIC.from_bank_code(a, b)), True)
+        add(f"multi-{cc_m}-candidates", (lambda a=cc_m, b=code_m: B.candidates_from_bank_code(a, b)))
+        add(f"multi-{cc_m}-subclass-from_bank_code", (lambda a=cc_m, b=code_m: ReportBIC.from_bank_code(a, b)),
+            core=(tier != "quick" and cc_m == multi[0][0]))
         add(f"multi-{cc_m}-subclass-candidates", (lambda a=cc_m, b=code_m: ReportBIC.candidates_from_bank_code(a, b)))
         if tm:
             add(f"multi-{cc_m}-iban-bic", (lambda t=tm: I(t).bic))
@@ -273,7 +274,7 @@ def build_alphabet(ga: dict, tier: str = "thorough"):
             tk = c12_build(cc_k, key_k)
             if tk:
                 add(f"shared-key-{key_k}-{cc_k}", (lambda t=tk: (I(t).bank_name, I(t).bic, I(t).bank)),
-                    core=(cc_k != "DE" and key_k == picked[0]))
+                    core=(tier != "quick" and cc_k != "DE" and key_k == picked[0]))
         if "DE" in by_text[key_k]:
             m_k = lookup.german_method(key_k + "0" * 10)
             if m_k in _bbk.METHODS and ("DE:" + m_k) in alg:
@@ -308,7 +309,7 @@ def build_alphabet(ga: dict, tier: str = "thorough"):
         return run
     for acc in ("country_bank_code", "bank_name", "bank_short_name"):
         add(f"deprecated-{acc}-warnings-as-errors", escalated(lambda acc=acc: getattr(B("MARKDEF1100"), acc)),
-            core=(acc == "bank_name"))
+            core=(tier != "quick" and acc == "bank_name"))
         add(f"deprecated-{acc}-warnings-recorded", recorded(lambda acc=acc: getattr(B("GENODEM1GLS"), acc)))
     add("iban-lower-warnings-as-errors", escalated(lambda: I("de89 3704 0044 0532 0130 00")))
     add("generate-combined-warnings-as-errors", escalated(lambda: I.generate("GB", "NWBK601613", "31926819")))
@@ -465,7 +466,12 @@ def main(tier: str) -> int:
     names = [o[0] for o in ops]
     _CTX["ops"] = ops
     _CTX["snapshot"] = states.RegistrySnapshot()
+    import time as _time
+    t_phase = {"setup": round(_time.time() - run.t0, 1)}
+    _t = _time.time()
     _CTX["fresh"] = fresh_outcomes(ga, len(ops), tier)
+    t_phase["fresh_interpreters"] = round(_time.time() - _t, 1)
+    _t = _time.time()
     all_ops = list(range(len(ops)))
 
     def report_problems(history, oi, rec, kind):
@@ -539,6 +545,8 @@ def main(tier: str) -> int:
         depth = depth_max
         frontier = [] if closure_ok else [None]
         closure_complete = not frontier
+        t_phase["closure_bfs"] = round(_time.time() - _t, 1)
+        _t = _time.time()
         # ---------------- merge-free sequences
         core = [i for i, o in enumerate(ops) if o[2]]
         if tier == "quick":
@@ -552,8 +560,9 @@ def main(tier: str) -> int:
             seqs += [(a, b, a) for a, b in same_group if a != b]
         else:
             main_group = [(a, b) for a, b in same_group if ops[a][3].startswith("m")]
-            seqs = sorted(set(itertools.product(all_ops, core)) | set(itertools.product(core, all_ops))
-                          | set(main_group))
+            qcore = core[:14]
+            seqs = sorted(set(itertools.product(all_ops, qcore)) | set(itertools.product(qcore, all_ops))
+                          | set(itertools.product(core, core)) | set(main_group))
             seqs += [s for s in itertools.product(core[:6], repeat=3)]
             seqs += [(a, b, a) for a, b in main_group if a != b]
         chunks = [seqs[i:i + 25] for i in range(0, len(seqs), 25)]
@@ -569,6 +578,8 @@ def main(tier: str) -> int:
         pool.join()
     if states.fingerprint() != fp0 or _CTX["snapshot"].check():
         raise report.HarnessError("the exploring process itself is no longer pristine")
+    t_phase["merge_free_sequences"] = round(_time.time() - _t, 1)
+    run.extra["wall_seconds_per_phase"] = t_phase
     run.distinct = transitions + nseq
     state_hist = sorted(seen.values(), key=lambda h: (len(h), h))
     run.samples = [{"state_reached_by": [names[i] for i in h]} for h in state_hist[:6]] + \
